@@ -178,6 +178,7 @@ def judge_launch(nested):
 SAMPLE_ITEMS = ['T', 'H', 'D1', 'D2', 'W', 'O']   # THD_Data, UHdr, UData, UData, unrelated, other thread's UData
 
 
+NESTED_Q = [0]              # function qualifier carried by the nested sampler records (kperf writes NONE; ALL is as legal)
 START_TAIL = [(0, 0)]       # words 3 and 4 of the sampler START record (not the action mask, not the action id)
 
 
@@ -187,13 +188,13 @@ def judge_sampler(flags, items, nframes, hflags=1):
     words = []
     for i, it in enumerate(items):
         if it == 'T':
-            evs.append(E.ev('PERF_THD_Data', 0, (55, 1, 0x66, 1)))
+            evs.append(E.ev('PERF_THD_Data', NESTED_Q[0], (55, 1, 0x66, 1)))
         elif it == 'H':
-            evs.append(E.ev('PERF_STK_UHdr', 0, (hflags, nframes, 0, 0)))
+            evs.append(E.ev('PERF_STK_UHdr', NESTED_Q[0], (hflags, nframes, 0, 0)))
         elif it in ('D1', 'D2'):
             w = tuple(0x1000 * (i + 1) + j for j in range(4))
             words += list(w)
-            evs.append(E.ev('PERF_STK_UData', 0, w))
+            evs.append(E.ev('PERF_STK_UData', NESTED_Q[0], w))
         elif it == 'W':
             evs.append(E.ev('MACH_WAIT', 0, (0x10, 0, 0, 0)))
         else:
@@ -463,6 +464,15 @@ class C20(Check):
                                     acc.case(nontrivial=len(items) >= 2, transitions=len(items) + 2, state=h64(('sa', items, tail)), outcome=h64(('sa', flags, tail)))
                                     if bad:
                                         acc.violation(bad[0] + '@other-words-of-the-START-record', {'kind': 'sampler', 'flags': flags, 'items': list(items), 'nframes': nframes, 'hflags': hflags, 'start_tail': list(tail)}, bad[1])
+                            if flags in (0x9, 0x8, 0x1) and nframes == 3 and hflags == 1:
+                                NESTED_Q[0] = 3
+                                try:
+                                    bad = judge_sampler(flags, items, nframes, hflags)
+                                finally:
+                                    NESTED_Q[0] = 0
+                                acc.case(nontrivial=len(items) >= 2, transitions=len(items) + 2, state=h64(('sa', items, 'q3')), outcome=h64(('sa', flags, 'q3')))
+                                if bad:
+                                    acc.violation(bad[0] + '@nested-records-with-the-ALL-qualifier', {'kind': 'sampler', 'flags': flags, 'items': list(items), 'nframes': nframes, 'hflags': hflags, 'nested_q': 3}, bad[1])
                             if flags in (0x9, 0x1) and nframes == 3 and hflags == 1:
                                 for codes in ('alias-added', 'alias-used'):
                                     CODES[0] = codes
@@ -480,10 +490,11 @@ class C20(Check):
         STAMPS[0] = case.get('stamps', 'up')
         CODES[0] = case.get('codes', 'stock')
         START_TAIL[0] = tuple(case.get('start_tail', (0, 0)))
+        NESTED_Q[0] = case.get('nested_q', 0)
         try:
             return self._replay(case)
         finally:
-            STAMPS[0], CODES[0], START_TAIL[0] = 'up', 'stock', (0, 0)
+            STAMPS[0], CODES[0], START_TAIL[0], NESTED_Q[0] = 'up', 'stock', (0, 0), 0
 
     def _replay(self, case):
         k = case['kind']
